@@ -2,7 +2,7 @@ SPECIFICATION SpecMC
 CONSTANTS
   MaxSteps = 4
   Depth = 0
-  OpNames = {"AddHeading", "SetStyle", "AddStyle", "ModifyStyle", "RemoveStyle", "GenerateTOC", "AutoGenerateTOC", "UpdateTOC", "TOCEntry", "ApplyTableStyle", "CreateCustomTableStyle", "AddListItem", "AddNote", "RemoveNote", "Save", "Reopen", "OpenForeign", "Markdown", "AddParagraph"}
+  OpNames = {"AddHeading", "SetStyle", "AddStyle", "ModifyStyle", "RemoveStyle", "GenerateTOC", "AutoGenerateTOC", "UpdateTOC", "TOCEntry", "ApplyTableStyle", "CreateCustomTableStyle", "AddListItem", "AddNote", "RemoveNote", "Save", "Reopen", "OpenForeign", "Markdown", "Switch", "Look", "AddParagraph"}
   Lv = {2, 9}
   Maxes = {3}
   StyIds = {"Quote", "C1", "Zz9"}
@@ -16,7 +16,10 @@ CONSTANTS
   Kinds = {"all"}
   ViasC = {"AddStyle", "CreateQuickStyle"}
   HowsC = {"mutate", "replace"}
+  OnIds = {"Normal", "Heading2"}
+  NoteKinds = {"fn", "en"}
+  Looks = {"styles"}
   FreshC = {TRUE, FALSE}
 INVARIANTS Inv_Defined Inv_Wf Inv_Pending
-PROPERTIES Act_Save Act_Keep
+PROPERTIES Act_Save Act_Keep Act_Remove Act_Isolated
 CHECK_DEADLOCK FALSE
